@@ -290,4 +290,85 @@ def item_applycal_product_loop(repo, out):
     out.append('Definition applycal_missing_skips_product : bool := %s.' % ('true' if skips else 'false'))
 
 
-ITEMS = [item_applycal_kernels, item_applycal_channel_map, item_applycal_solutions, item_applycal_product_loop]
+def item_applycal_wiring(repo, out):
+    """The glue between the modelled pieces (fail-closed): the per-input product loop and g1*conj(g2) call in
+    calc_correction_per_corrprod, the per-dump loop of _correction_block, how calc_correction numbers the inputs,
+    and how VisibilityDataV4 wires the three kernels onto vis / flags / weights."""
+    rel = 'katdal/applycal.py'
+    tree = _parse(repo, rel)
+    fn = _find_func(tree, 'calc_correction_per_corrprod', rel)
+    body = [_norm(x) for x in fn.body if not (isinstance(x, ast.Expr) and isinstance(x.value, ast.Constant))]
+    want = ['n_channels=channels.stop-channels.start',
+            "g_per_input=np.ones((len(params.inputs),n_channels),dtype='complex64')",
+            'forcal_product,product_correctionsinparams.corrections.items():channel_map=params.channel_maps[cal_product]'
+            'foriinrange(len(params.inputs)):sensor=product_corrections[i]g_per_channel=sensor[dump]'
+            'g_per_input[i]*=channel_map(g_per_channel,channels)',
+            'g_per_input=np.ascontiguousarray(g_per_input.T)',
+            "g_per_cp=np.empty((n_channels,len(params.input1_index)),dtype='complex64')",
+            '_correction_inputs_to_corrprods(g_per_cp,g_per_input,params.input1_index,params.input2_index)',
+            'returng_per_cp']
+    if body != want:
+        raise TranslateError('%s: calc_correction_per_corrprod body not of the expected shape: %s' % (rel, body))
+    fn = _find_func(tree, '_correction_block', rel)
+    body = [_norm(x) for x in fn.body if not (isinstance(x, ast.Expr) and isinstance(x.value, ast.Constant))]
+    want = ["slices=tuple((slice(*loc)forlocinblock_info[None]['array-location']))",
+            "block_shape=block_info[None]['chunk-shape']",
+            'correction=np.empty(block_shape,np.complex64)',
+            'forn,dumpinenumerate(range(slices[0].start,slices[0].stop)):'
+            'correction[n]=calc_correction_per_corrprod(dump,slices[1],params)',
+            'returncorrection']
+    if body != want:
+        raise TranslateError('%s: _correction_block body not of the expected shape: %s' % (rel, body))
+    fn = _find_func(tree, 'calc_correction', rel)
+    got = {_norm(n.targets[0]): _norm(n.value) for n in ast.walk(fn) if isinstance(n, ast.Assign)
+           and len(n.targets) == 1}
+    want = {'inputs': 'sorted(set(np.ravel(corrprods)))',
+            'input1_index': 'np.array([inputs.index(cp[0])forcpincorrprods])',
+            'input2_index': 'np.array([inputs.index(cp[1])forcpincorrprods])',
+            'params': 'CorrectionParams(inputs,input1_index,input2_index,corrections,channel_maps)',
+            'final_cal_products': 'list(corrections.keys())',
+            'cal_stream_freqs': 'all_cal_freqs[cal_stream]',
+            'sensor_prefix': "f'Calibration/Corrections/{cal_stream}/{product_type}/'"}
+    for k, v in want.items():
+        if got.get(k) != v:
+            raise TranslateError('%s: calc_correction: %s = %s (expected %s)' % (rel, k, got.get(k), v))
+    mb = _calls(fn, 'da.map_blocks')
+    if len(mb) != 1 or _norm(mb[0].args[0]) != '_correction_block' or \
+            {k.arg: _norm(k.value) for k in mb[0].keywords} != {'dtype': 'np.complex64', 'chunks': 'chunks',
+                                                               'name': 'name', 'params': 'params'}:
+        raise TranslateError('%s: calc_correction: da.map_blocks call not of the expected shape' % rel)
+    # ---- visdatav4: kernels onto vis / flags / weights
+    rel = 'katdal/visdatav4.py'
+    tree = _parse(repo, rel)
+    cls = [n for n in tree.body if isinstance(n, ast.ClassDef) and n.name == 'VisibilityDataV4']
+    if len(cls) != 1:
+        raise TranslateError('%s: class VisibilityDataV4 not found' % rel)
+    mc = [n for n in cls[0].body if isinstance(n, ast.FunctionDef) and n.name == '_make_corrected']
+    if len(mc) != 1 or [_norm(x) for x in mc[0].body] != \
+            ['returnda.core.elemwise(apply_correction,data,self._corrections,dtype=data.dtype)']:
+        raise TranslateError('%s: _make_corrected is not elemwise(apply_correction, data, self._corrections)' % rel)
+    init = [n for n in cls[0].body if isinstance(n, ast.FunctionDef) and n.name == '__init__'][0]
+    got = {_norm(n.targets[0]): _norm(n.value) for n in ast.walk(init) if isinstance(n, ast.Assign)
+           and len(n.targets) == 1}
+    want = {'corrected_vis': 'self._make_corrected(apply_vis_correction,self.source.data.vis)',
+            'corrected_flags': 'self._make_corrected(apply_flags_correction,self.source.data.flags)',
+            'corrected_weights': 'self._make_corrected(apply_weights_correction,self.source.data.weights)',
+            'freqs': 'self.spectral_windows[0].channel_freqs',
+            'corrprods': 'self.subarrays[self.subarray].corr_products',
+            '(self.applycal_products,self._corrections)':
+                'calc_correction(self.source.data.vis.chunks,self.sensor,corrprods,normalised_cal_products,freqs,'
+                'cal_freqs,skip_missing_products)',
+            '(normalised_cal_products,skip_missing_products)': '_normalise_cal_products(applycal,cal_freqs.keys())'}
+    for k, v in want.items():
+        if got.get(k) != v:
+            raise TranslateError('%s: VisibilityDataV4.__init__: %s = %s (expected %s)' % (rel, k, got.get(k), v))
+    vfw = [n for n in ast.walk(init) if isinstance(n, ast.Assign) and _norm(n.targets[0]) == 'self._corrected'
+           and isinstance(n.value, ast.Call) and _norm(n.value.func) == 'VisFlagsWeights']
+    if len(vfw) != 1 or [_norm(a) for a in vfw[0].value.args] != \
+            ['corrected_vis', 'corrected_flags', 'corrected_weights', 'unscaled_weights']:
+        raise TranslateError('%s: corrected VisFlagsWeights not (vis, flags, weights, unscaled_weights)' % rel)
+    out.append('Definition applycal_wiring_checked : bool := true.')
+
+
+ITEMS = [item_applycal_kernels, item_applycal_channel_map, item_applycal_solutions, item_applycal_product_loop,
+         item_applycal_wiring]
